@@ -166,6 +166,24 @@ def parse_xml_findings(text):
     return out, well
 
 
+TEXT_SEP = "|~|"
+TEXT_TEMPLATE = "--template=" + TEXT_SEP.join(["{file}", "{line}", "{column}", "{severity}", "{id}", "{inconclusive:inconclusive}", "{cwe}", "{message}"])
+
+
+def parse_template_findings(text):
+    """Findings from the text channel (TEXT_TEMPLATE): messages arrive as cppcheck prints them, unsanitised."""
+    out = []
+    for l in text.split("\n"):
+        p = l.split(TEXT_SEP)
+        if len(p) < 8:
+            continue
+        file_, line, col, sev, fid, inc, cwe = p[:7]
+        msg = TEXT_SEP.join(p[7:])
+        locs = ((file_, line, col, ""),) if file_ != "nofile" else ()
+        out.append(Finding((fid, sev, "true" if inc else "", cwe if cwe != "0" else "", msg, "", locs, (), "")))
+    return out
+
+
 def multiset(findings, keep=None, drop_file0=True):
     d = {}
     for f in findings:
@@ -304,7 +322,12 @@ def run_sim(variant, cwd, args, plan=None, roots=(), workdir=None, tag="run", en
     r.rc = rc
     r.stdout = out.decode("utf-8", "replace")
     r.stderr = err.decode("utf-8", "replace")
-    r.findings, r.xml_ok = parse_xml_findings(r.stderr) if "--xml" in args else ([], False)
+    if "--xml" in args:
+        r.findings, r.xml_ok = parse_xml_findings(r.stderr)
+    elif TEXT_TEMPLATE in args:
+        r.findings, r.xml_ok = parse_template_findings(r.stderr), (rc >= 0)
+    else:
+        r.findings, r.xml_ok = [], False
     r.trace = []
     if trace_path and os.path.exists(trace_path):
         with open(trace_path, encoding="utf-8", errors="replace") as f:
